@@ -4,6 +4,7 @@ from fractions import Fraction
 
 from pv import gallina as G
 from pv.canon import B, Val, outcome, unB
+from props._c08_gen import TranslateError, gen_tables  # noqa: F401  (source -> coq/Gen/C08_Tables.v, fail-closed)
 
 ID = "C08"
 COQ_REQUIRE = "C08.Run"
@@ -24,7 +25,13 @@ RULE = ("/proc/meminfo drawn as a list of kernel-formatted lines: EXHAUSTIVE ove
         "that the estimate runs over the real watermarks) and psutil over the real /proc (timing-free facts); BIG: zoneinfo of a 48-CPU 5-zone machine (42 KB, generated "
         "inside Coq) with byte offsets 8192/16384/32768 aligned into / onto the ends of a low line's digits, meminfo and vmstat whose decisive lines lie beyond 32 KiB. Non-trivial = at least MemTotal and MemFree (or one swap source) present; distinct = "
         "distinct canonical case hash.")
-TRUSTED = ["kernel printers k_meminfo/k_zoneinfo/k_vmstat: validated byte for byte against the running kernel's files on every run (live cases); other kernel versions by transcription",
+TRUSTED = ["SOURCE TRANSLATION (round 2): the body of _pslinux.virtual_memory() after the parsing loop (field selection with its try/except KeyError ladders and "
+           "missing_fields.append calls, used + negative fallback, MemAvailable / ==0 / calculate_avail_vmem decision, <0 and >total clamps, usage_percent(round_=1), "
+           "svmem argument order) and svmem's field list are translated from the ast of the tree under check by props/_c08_gen.py (fail-closed) into coq/Gen/C08_Tables.v; "
+           "C08_gen_vm_prog_model proves interpreter(translated program) = Model.vm_of_dict for every dict. Trusted there: the translator (ast shape -> PyGen syntax, ~150 lines) "
+           "and the interpreter coq/C08/PyGen.v as the semantics of that Python fragment; still hand-written and tied by the correspondence run only: parse_meminfo, "
+           "calculate_avail_vmem (calc_avail, zone_low, the float path), usage_percent10, swap_memory, the _TOTAL_PHYMEM front end",
+           "kernel printers k_meminfo/k_zoneinfo/k_vmstat: validated byte for byte against the running kernel's files on every run (live cases); other kernel versions by transcription",
            "correspondence harness props/C08.py + pv/ (fake /proc tree, patched cext.linux_sysinfo and _pslinux.PAGESIZE, captured warnings)",
            "kernel formats of /proc/meminfo, /proc/zoneinfo, /proc/vmstat and the MemAvailable fallback formula transcribed in coq/C08/Spec.v",
            "IEEE double arithmetic and round() of CPython: the fallback estimate's doubles are modelled by rnd53 (53-bit round-half-even on integers/half-integers), "
@@ -1143,7 +1150,11 @@ def impl_run(case, coq, env):
 
 
 MANIFEST = {
-    "text": "Theorems (Coq 8.16, 28, all closed under the global context): for EVERY well-formed kernel record -- /proc/meminfo as any list of 'name number [rest]' "
+    "text": "Theorems (Coq 8.16, 36, all closed under the global context): TIE BY TRANSLATION: the statements of virtual_memory() after the meminfo parsing loop are translated on every run "
+            "from the source's ast (props/_c08_gen.py, fail-closed) into a program of the statement language coq/C08/PyGen.v (assignments, mems[k] with KeyError, mems.get, +/-, "
+            "try/except KeyError/else, if </>/==, missing_fields.append, return svmem(...)), and C08_gen_vm_prog_model proves its interpreter equal to the model's vm_of_dict for EVERY "
+            "mems dict, page size and zoneinfo state (C08_gen_virtual_memory_model: with the parser in front, any bytes; C08_gen_virtual_memory_spec: = the demanded tuple on every "
+            "well-formed kernel; C08_gen_svmem_fields: tuple layout) -- a semantic edit of those statements breaks the proof, an untranslatable one the translator. for EVERY well-formed kernel record -- /proc/meminfo as any list of 'name number [rest]' "
             "lines with distinct names (every subset and order of the optional fields, every magnitude, zero totals), /proc/zoneinfo as any list of lines with "
             "low-watermark lines under any blanks and any number of zones or absent, any page size -- the model of virtual_memory() returns exactly the demanded "
             "record: fields = kernel kB x 1024 with the documented substitutions, used with its negative clamp, available = MemAvailable or (absent/zero) the documented "
@@ -1160,7 +1171,8 @@ MANIFEST = {
             "re-reads only when nothing/0 is cached, ValueError for a non-positive total; every virtual_memory() call refreshes the cached total (refresh and history theorems). The model is tied to the code by running the real psutil (public "
             "API, fake /proc, patched sysinfo/PAGESIZE, captured warnings) on printed records (exhaustive over 512 field subsets and 96 availability paths, float path "
             "above 2^53 compared exactly, percent compared exactly outside 1e-9 of a tie) and on a malformed stream.",
-    "note": "Trusted: Coq kernel + vm_compute; hand-written model coq/C08/Model.v (tied by the correspondence run only); kernel formats, the 2.4 header and the fallback "
+    "note": "Trusted: Coq kernel + vm_compute; the translator props/_c08_gen.py and the interpreter coq/C08/PyGen.v for the translated tail of virtual_memory(); the rest of the hand-written "
+            "model coq/C08/Model.v (parse_meminfo, calc_avail, usage_percent10, swap_memory, memory_percent: tied by the correspondence run only); kernel formats, the 2.4 header and the fallback "
             "formula in coq/C08/Spec.v; harness; CPython builtins and IEEE doubles (mirrored by rnd53 for the estimate; usage_percent's doubles replaced by the exact "
             "rational with a 1e-9 tie window). Not covered: float overflow >= 2^1024, int() 4300-digit limit, memory_percent's memtype validation and the statm "
             "reader (C13). Observations: free>total, one-sided vmstat, stale cached total, float bound above 2 EiB.",
